@@ -1,4 +1,4 @@
-import GSProofs.Lemmas.RespLifeOutcomeNStep
+import GSProofs.Lemmas.RespLifeOutcomeSeen
 import GSProofs.C05
 /-!
 # C05 — "exactly one outcome", the positive (partial) form
@@ -26,6 +26,7 @@ hooks, API calls, send failures:
 * `after_outcome_nothing_pending` — once such an id has been reported completed or cancelled, no source of a
   further outcome is left: no terminal status of it in any builder / publisher queue / parked or blocked
   transaction, its response not Queued / Paused, no worker of it before its final status.
+* `retired_holds_no_state_partial` — `retired_holds_no_work` extended by these components (one statement).
 * `outcome_sources_le_registrations` — the invariant itself: outcome events + everything that can still
   produce one (terminal statuses in parked / blocked transactions, message builders and publisher queues,
   Queued / Paused responses, task workers before their final status, pausing / cancelling FinishTask
@@ -38,6 +39,9 @@ hooks, API calls, send failures:
   `emitNerr r` in a publisher queue is CONFIRMED when no `callClose r` / pending `closeNetErr r` of that publisher
   is in front of it; cancelled events + [confirmed or reported network error] + [response alive and not failed]
   + [parked newRequest] ≤ registrations.
+* `registrations_le_requests`, `one_outcome_partial_requests` — registrations(r) ≤ number of `new r` requests
+  received (`seenIds`); so the hypothesis "registered at most once" can be replaced by the environment
+  hypothesis "the id was sent at most once".
 * `fresh_is_not_enough_counterexample` — under the weaker hypothesis of `protect_balanced_partial`
   (`ReachableFresh`: the id is not live *for that peer*) the count fails: a second peer re-uses the id
   of a cancelled request whose task was already popped; both StartTask messages find the new response,
@@ -183,6 +187,30 @@ theorem mqSum_zero_iff (r : Id) (l : List PeerMQ) :
     simp only [mqW]
     omega
 
+/-- **C05.retired_holds_no_state_partial** ("afterwards the responder holds no state for it", everything that is
+    proved, in one statement).  Drained ids; `r` registered once, reported completed or cancelled, no longer in
+    the table, its newRequest not parked, its task workers returned.  Then: the connection is not protected
+    for it; no table entry (hence no `PeerState` line) has its id; no peer's task queue has an active topic
+    for it; no message builder (in flight or accumulating) and no publisher queue of any peer holds a terminal
+    status / completed notification for it; no parked manager transaction and no task worker holds a terminal
+    status or a pending outcome for it.
+    NOT proved (open): no PENDING topic, no waiting allocator reservation and no NON-terminal builder content
+    (hook data / a late `UpdateResponse` status) of the retired id. -/
+theorem retired_holds_no_state_partial {c : Cfg} {s : State} (h : ReachableDrained c s) (p : Peer) (r : Id)
+    (hreg : registrations s r ≤ 1) (hout : 1 ≤ completedCount s r + cancelledCount s r)
+    (hgone : lookup s r = none) (hpark : parkNew s.park ≠ some (p, r))
+    (hw : ∀ w ∈ s.workers, w.id = r → w.phase = .done) :
+    (p, r) ∉ s.prot ∧ (∀ x ∈ s.table, x.id ≠ r) ∧ (∀ q, r ∉ (getQ s q).active) ∧
+      (∀ q ∈ s.mqs, tokB r q.inflight = 0 ∧ tokB r q.next = 0 ∧ tokQ r q.pubQ = 0) ∧
+      parkW r s.park = 0 ∧ wkSum r s.workers = 0 ∧ mbSum r s.workers s.mailbox = 0 := by
+  obtain ⟨h1, h2⟩ := retired_holds_no_work h p r hgone hpark hw
+  obtain ⟨_, h4, h5, h6, h7⟩ := after_outcome_nothing_pending h r hreg hout
+  refine ⟨h1, ?_, h2, (mqSum_zero_iff r s.mqs).1 h7, h4, h5, h6⟩
+  intro x hx hid
+  unfold lookup at hgone
+  have := List.find?_eq_none.1 hgone x hx
+  simp [hid] at this
+
 -- ------------------------------------------------------------------ cancelled vs network error
 /-- calls of the network-error listeners for request id `r` -/
 def networkErrorCount (s : State) (r : Id) : Nat :=
@@ -238,6 +266,21 @@ theorem one_outcome_partial_full {c : Cfg} {s : State} (h : ReachableDrained c s
       ¬ (1 ≤ cancelledCount s r ∧ 1 ≤ networkErrorCount s r) :=
   ⟨(one_outcome_partial h r hreg).1, (one_outcome_partial h r hreg).2.1, (one_outcome_partial h r hreg).2.2,
     cancelled_excludes_network_error (reachable_of_drained h) r hreg⟩
+
+/-- **C05.registrations_le_requests**: an id is registered at most as often as a `new` request with that id
+    was received (`seenIds` = ghost log of the ids of all received `new` requests). -/
+theorem registrations_le_requests {c : Cfg} {s : State} (h : ReachableFresh c s) (r : Id) :
+    registrations s r ≤ s.seenIds.count r := by
+  rw [← regs_eq]; exact regs_le_seen h r
+
+/-- **C05.one_outcome_partial_requests**: `one_outcome_partial_full` with the hypothesis on the environment
+    only — drained ids, and the requestors sent a `new` request with id `r` at most once (the id is not
+    re-used): completed at most once, cancelled at most once, never both, never cancelled and network error. -/
+theorem one_outcome_partial_requests {c : Cfg} {s : State} (h : ReachableDrained c s) (r : Id)
+    (hreq : s.seenIds.count r ≤ 1) :
+    completedCount s r ≤ 1 ∧ cancelledCount s r ≤ 1 ∧ ¬ (1 ≤ completedCount s r ∧ 1 ≤ cancelledCount s r) ∧
+      ¬ (1 ≤ cancelledCount s r ∧ 1 ≤ networkErrorCount s r) :=
+  one_outcome_partial_full h r (Nat.le_trans (registrations_le_requests (reachableFresh_of_drained h) r) hreq)
 
 /-- non-vacuity: a reachable state with a reported network error of an id registered once (the replay of
     /repo 369d047) -/
